@@ -28,6 +28,14 @@ What is checked (only uniquely defined quantities)                              
         optimum of sum y vs objective_value [room-linear:sum].
         If a mismatch disappears once the undocumented row `room_old_objective <= reference.objective_value` of add_room
         is added to the oracle, the key is  room:objective-cap  (see NOTES_C09.md) instead.
+ Pairing by identifier: given references come with their rows in the model's order, reversed or shuffled
+ (pfba(model, reactions=<reordered full list>) / get_solution(model, reactions=...)), sometimes model.reactions itself is
+ reversed after the reference was taken, and the knock-out may be a *removal* (remove_reactions) so that the wild-type
+ reference has one row more than the model; pfba's `reactions=` gets subsets in random order and the full list reordered.
+ The oracle reads every reference by reaction id.
+ Open class room-linear:noise-coefficient (NOTES_C09 finding 2): reported only from the fixed, seed-independent cases of
+ fixed_cases() (failure field "witness", list in KNOWN_C09.json); a seeded model that hits the same degenerate default
+ reference is counted (skipped_noise), not reported.
  Reference solutions given to MOMA/ROOM are rounded to 9 decimals (they stay optimal within solver tolerance); this keeps
  1e-16 noise out of the coefficients `upper_bound - w_u` of the relaxed ROOM rows.
 
@@ -298,7 +306,7 @@ def fixed_cases():
 
 def build_cases(tier, seed):
     rng = random.Random(seed * 7919 + 13)
-    n_models = 75 if tier == "quick" else 800
+    n_models = 60 if tier == "quick" else 700
     cases = fixed_cases()
     for m in corner_models():
         cases += cases_for(m, rng, tier)
@@ -640,14 +648,14 @@ def run(tier: str, seed: int) -> dict:
     U.silence()
     cases = build_cases(tier, seed)
     t_gen = time.time() - t0
-    deadline = (80 if tier == "quick" else 840) - t_gen
+    deadline = (55 if tier == "quick" else 840) - t_gen
     results = U.run_pool(run_case, cases, deadline=max(10, deadline), chunksize=8)
     n_models = len({U.model_sig(c["model"]) for c in cases})
     rule = ("corner models + seeded random networks (2-4 metabolites, <= 8 reactions, exchanges written either way, "
             "coefficients 1/2, bounds incl. forced/negative/infinite, GPRs) kept iff exactly feasible, bounded and optimum "
             ">= 0; cases = model x {pFBA fractions 0/.5/1, explicit objective= dict/Objective, reactions= subsets, "
-            "add_pfba; linear MOMA, ROOM, relaxed ROOM x reference given(pFBA|FBA of wild type)|default x knock-out "
-            "none|reaction|gene}; distinct = distinct (model structure, method, parameters); non-trivial = the wild type "
+            "add_pfba; linear MOMA, ROOM, relaxed ROOM x reference given(pFBA|FBA of wild type; rows in model order, reversed "
+            "or shuffled; model list re-sorted afterwards)|default x knock-out none|reaction|gene|reaction removed}; distinct = distinct (model structure, method, parameters); non-trivial = the wild type "
             "carries flux at its optimum (exact pFBA total > 0)")
     bounds = {"models": n_models, "max_metabolites": 4, "max_reactions": 8, "room_enumeration": "2^n subsets, n <= 8",
               "fractions": [0, 0.5, 1], "seed": seed, "tier": tier, "cases_generated": len(cases)}
